@@ -21,7 +21,7 @@ THRESHOLDS = {
               "c02:exh-structures": 6541, "c02:from-targeted": 50, "ambient:solver:return": 20, "c02:array-args": 100,
               "hits:find_shortest_path": 1000},
 }
-THRESHOLDS["thorough"] = dict(THRESHOLDS["quick"])
+THRESHOLDS["thorough"] = {**THRESHOLDS["quick"], "c02:exh-structures-13-17-edges": 2 * 8192 + 2 * 131072}
 ANCHORS = ["maze_dataset.maze.lattice_maze:LatticeMaze.find_shortest_path",
            "maze_dataset.maze.lattice_maze:LatticeMaze.get_coord_neighbors",
            "maze_dataset.maze.lattice_maze:LatticeMaze.nodes_connected"]
@@ -73,6 +73,30 @@ def run(ctx):
                     ctx.nontrivial("exh", R, C, mask, s, e)
             if mask % 1500 == 7 and len(ctx.samples) < 2:
                 ctx.sample(dict(kind="exh", shape=(R, C), mask=mask, cl=cl, pairs=len(pairs)))
+    # ---- (1b) thorough only: the next larger grids, every structure -----------
+    if not ctx.quick:
+        for (R, C) in ((2, 5), (5, 2), (3, 4), (4, 3)):
+            cells = ref.all_cells(R, C)
+            slots = ref.lattice_edge_slots(R, C)
+            allpairs = [(s, e) for s in cells for e in cells]
+            for mask in range(1 << len(slots)):
+                k += 1
+                if not ctx.mine(k):
+                    continue
+                cl = ref.cl_from_mask(R, C, mask, slots)
+                g = Graph(cl)
+                maze = lib.lattice(cl)
+                cache = {}
+                ctx.tally("c02:exh-structures-13-17-edges")
+                if len(slots) <= 13 or mask % 8 == ctx.seed % 8:
+                    pairs = allpairs
+                else:
+                    idx = ctx.sub_rng("exh2", R, C, mask).choice(len(allpairs), size=24, replace=False)
+                    pairs = [allpairs[int(i)] for i in idx]
+                for (s, e) in pairs:
+                    _solve(ctx, maze, g, s, e, dict(kind="exh", shape=(R, C), mask=mask, s=s, e=e), cache)
+                    if s != e and mask:
+                        ctx.nontrivial("exh", R, C, mask, s, e)
     # ---- (2) larger / hostile mazes ---------------------------------------
     n_mazes = 320 if ctx.quick else 4000
     max_n = 12 if ctx.quick else 25
